@@ -918,15 +918,22 @@ class Interp:
             from . import loops
             return loops.summarise_for(self, st, it, frame)
         broke = False
+        hook = getattr(self, "loop_hook", None)
         for x in items:
             self.assign(st.target, x, frame)
+            if hook is not None and hook("before", st, frame, x) == "skip":
+                continue
             try:
                 self.exec_block(st.body, frame)
             except BreakSig:
                 broke = True
                 break
             except ContinueSig:
+                if hook is not None:
+                    hook("after", st, frame, x)
                 continue
+            if hook is not None:
+                hook("after", st, frame, x)
         if not broke and st.orelse:
             self.exec_block(st.orelse, frame)
 
